@@ -184,18 +184,19 @@ package closest
 //@     invariant [chan.distinct] forall(a, 0, i, forall(b, 0, i, implies(a != b, QChanArray[a] != QChanArray[b])))
 //@   loop 2:
 //@     invariant nQ == len(queries) && len(QChanArray) == nQ
+//@     invariant forall(k, 0, nQ, len(sent(QChanArray[k])) == 0)
 //@   before call:findClosest#1: assert [worker.wiring] arg(0) == queries[i] && arg(1) == measure && arg(2) == QChanArray[i] && arg(3) == cOut
 //@   loop 3:
 //@     invariant nQ == len(queries) && len(QChanArray) == nQ && len(sent(cSplitDone)) == 0 && targetCounter == range_i
 //@     invariant [fanout.all] forall(k, 0, nQ, len(sent(QChanArray[k])) == range_i)
 //@     invariant [fanout.order] forall(k, 0, nQ, forall(t, 0, range_i, sent(QChanArray[k])[t] == recv(cIn)[t]))
-//@     invariant [c18.width] len(sent(cErr)) <= 1 && implies(range_i >= 1 && len(recv(cIn)[0].Seq) != len(queries[0].Seq), len(sent(cErr)) == 1)
+//@     invariant [c18.width] len(sent(cErr)) == ite(range_i >= 1 && len(recv(cIn)[0].Seq) != len(queries[0].Seq), 1, 0)
 //@   loop 4:
 //@     invariant 0 <= i && i <= nQ && nQ == len(queries) && len(QChanArray) == nQ && len(sent(cSplitDone)) == 0
 //@     invariant forall(k, 0, i, len(sent(QChanArray[k])) == range_i3 + 1 && sent(QChanArray[k])[range_i3] == EFR)
 //@     invariant forall(k, i, nQ, len(sent(QChanArray[k])) == range_i3)
 //@     invariant forall(k, 0, nQ, forall(t, 0, range_i3, sent(QChanArray[k])[t] == recv(cIn)[t]))
-//@     invariant len(sent(cErr)) <= 1 && implies(len(recv(cIn)[0].Seq) != len(queries[0].Seq), len(sent(cErr)) == 1)
+//@     invariant len(sent(cErr)) == ite(len(recv(cIn)[0].Seq) != len(queries[0].Seq), 1, 0)
 //@   loop 5:
 //@     invariant len(sent(cSplitDone)) == 0
 //@   before send#3: assert [c06.fanout] forall(k, 0, nQ, len(sent(QChanArray[k])) == len(recv(cIn)) && forall(t, 0, len(recv(cIn)), sent(QChanArray[k])[t] == recv(cIn)[t]))
